@@ -690,6 +690,15 @@ def run(rep, tier="quick", srcdir=None, only=None):
         rule_TB12(rep, prog, q)
     if want("C03-MP13"):
         rule_MP13(rep, prog, q)
+    if want("C02-TR7"):
+        # a waiter pushed onto a busy bottom (lane or workloop) completes a barrier only if it took the lock itself (shared with C02)
+        from . import C02
+        C02.rule_TR7(rep, prog, q)
+    if want("C05-WR3"):
+        # a parked dispatch_sync caller of the hierarchy is released only by the real hand-off: every wake-up is re-validated (shared with C05)
+        from . import C05
+        from dqsa import build as _b, ir as _ir
+        C05.rule_WR3(rep, _ir.Program(_b.facts_for(["shims/lock"], srcdir=srcdir)))
     if want("C02-SB5"):
         # the serial queue at the bottom excludes only because every waiting submission form takes its barrier lock when dq_width == 1 (shared with C02)
         from . import C02
